@@ -1361,6 +1361,14 @@ def strat_chan(draw):
 def strat_channels(draw):
     case = draw(_STRAT_ANY)
     if draw(_SMALL) == 1:
+        # one name only speaks the minisat convention: give it more weight than 1/11
+        keep = {k: case[k] for k in ('nvars', 'clauses', 'blocks', 'pick', 'flags', 'verbose', 'shape')}
+        if draw(_SMALL) == 0:
+            exe = EXES[draw(_SMALL)]
+            case = dict(keep, mode='sameas', solver='minisat', exe=exe, installed={exe: 'ok'})
+        else:
+            case = dict(keep, mode='named', solver='minisat', installed={'minisat': 'ok'})
+    if draw(_SMALL) == 1:
         n, m = draw(_PLANTED)
         for k in ('nvars', 'clauses', 'blocks'):
             case.pop(k, None)
@@ -1426,7 +1434,8 @@ def enum_channels(tier):
     i = 0
     for a, name in enumerate(names):
         for b, lay in enumerate(layouts):
-            reps = 1 if tier == 'quick' else 3
+            # the minisat convention has a single name: all formulas for it in the quick tier too
+            reps = 4 if fs.behaviour_of(name) == 'minisat' else 1 if tier == 'quick' else 3
             for r in range(reps):
                 i += 1
                 j = a + b + r
